@@ -372,10 +372,13 @@ Fixpoint rexec (n : nat) (fn : string) (s : rstmt) (fr : frame) (g : glob) {stru
           | None => Some (EX (err "undefined function"), g)
           | Some d =>
               (* a fresh frame holding only the parameters; the body's exits are resolved on their own *)
-              match rexec n' f (resolve [] [] (fbody d)) (bind_params (fparams d) vs [], []) g with
-              | Fuel => None
-              | Res c _ g' => Some (rcall_result c, g')
-              end
+              (* every argument has been evaluated; a required parameter without argument: ArgumentCountError *)
+              if enough_args (fparams d) vs then
+                match rexec n' f (resolve [] [] (fbody d)) (bind_params (fparams d) vs [], []) g with
+                | Fuel => None
+                | Res c _ g' => Some (rcall_result c, g')
+                end
+              else Some (EX (VErr "too few arguments"), g)
           end
       | CClo id oid cap =>
           (* a closure: a fresh frame with the parameters and the values captured when the closure was
@@ -383,10 +386,12 @@ Fixpoint rexec (n : nat) (fn : string) (s : rstmt) (fr : frame) (g : glob) {stru
           match nth_error clos id with
           | None => Some (EX (VErr "no such closure"), g)
           | Some cd =>
-              match rexec n' (clo_name oid) (resolve [] [] (cbody cd)) (bind_captured cap (bind_params (cparams cd) vs []), []) g with
-              | Fuel => None
-              | Res c _ g' => Some (rcall_result c, g')
-              end
+              if enough_args (cparams cd) vs then
+                match rexec n' (clo_name oid) (resolve [] [] (cbody cd)) (bind_captured cap (bind_params (cparams cd) vs []), []) g with
+                | Fuel => None
+                | Res c _ g' => Some (rcall_result c, g')
+                end
+              else Some (EX (VErr "too few arguments"), g)
           end
       end in
     let ev := reval callf funs clos fn in
